@@ -51,6 +51,12 @@ func optWire(o dhcpv6.Option) string {
 func inner(r *rand.Rand, g *gen6.G, mt int) (*dhcpv6.Message, string) {
 	m := &dhcpv6.Message{MessageType: dhcpv6.MessageType(mt)}
 	copy(m.TransactionID[:], gen4.Bytes(r, 3))
+	switch r.IntN(10) { // transaction ids are values like any other, also 000000 and ffffff
+	case 0:
+		m.TransactionID = dhcpv6.TransactionID{}
+	case 1:
+		m.TransactionID = dhcpv6.TransactionID{0xff, 0xff, 0xff}
+	}
 	desc := ""
 	add := func(code int, name string, p int) {
 		if r.IntN(p) != 0 {
